@@ -177,6 +177,11 @@ func UnzipToFolder(zipFile, destDir string) error {
 			continue
 		}
 
+		destFile := filepath.Join(destDir, z.Name)
+		if rel, err := filepath.Rel(destDir, destFile); err != nil || rel == ".." || strings.HasPrefix(rel, ".."+string(filepath.Separator)) {
+			return fmt.Errorf("UnzipToFolder: the file \"%s\" would be written outside of %s", z.Name, destDir)
+		}
+
 		partPath, _ := filepath.Split(z.Name)
 		destPath := filepath.Join(destDir, partPath)
 		if !pathChecked[destPath] {
@@ -192,7 +197,6 @@ func UnzipToFolder(zipFile, destDir string) error {
 			return fmt.Errorf("UnzipToFolder: cannot open file \"%s\" in the ziputil archive: %w", z.Name, err)
 		}
 
-		destFile := filepath.Join(destDir, z.Name)
 		out, err := os.Create(destFile)
 		if err != nil {
 			in.Close()
